@@ -129,8 +129,8 @@ Fixpoint ref_stmt (tm : bool) (e : env) (s : stmt) : list tok * sig * Z :=
   | Try pipe b =>
       let '(o, g, x) := ref_block true e b 0%Z in (o, absorb (try_name pipe) g, x)
   | Call f b =>
-      let '(o, g, _) := ref_block false [] b 0%Z in
-      let k := match g with SRet k => k | _ => 0%Z end in
+      (* the exit number of a call is that of the function's block: of its last statement *)
+      let '(o, _, k) := ref_block false [] b 0%Z in
       (* in try mode a failed call ends the block before `exitnum` is reached *)
       if tm && failed k then (o, SNone, k) else (o ++ [TExit k], SNone, 0%Z)
   | Break nm => ([], SBrk nm, 0%Z)
@@ -147,13 +147,16 @@ with ref_block (tm : bool) (e : env) (b : block) (xprev : Z) : list tok * sig * 
       | SNone =>
           if tm && failed x && nonnil b' then (o, SNone, x)
           else let '(o2, g2, x2) := ref_block tm e b' x in (o ++ o2, g2, x2)
-      | _ => (o, g, x)
+      | _ =>
+          (* the statements that follow are cancelled: they keep the exit number KillForks gave
+             them, and in normal mode the block reports that of its last statement *)
+          if nonnil b' && negb (tm && failed x) then (o, g, sig_exit g) else (o, g, x)
       end
   end.
 
 (* the whole program is the body of the function the harness runs it in *)
 Definition run_ref (main : block) : list tok * Z :=
-  let '(o, g, _) := ref_block false [] main 0%Z in (o, match g with SRet k => k | _ => 0%Z end).
+  let '(o, _, x) := ref_block false [] main 0%Z in (o, x).
 
 (* ------------------------------------------------------------------ *)
 (* (a) the cancellation mechanism *)
@@ -167,7 +170,8 @@ Definition kill_rest (f : frame) : frame :=
   {| f_name := f_name f; f_cancelled := f_cancelled f; f_restkilled := true; f_exit := f_exit f |}.
 Definition fresh_iteration (f : frame) : frame :=
   {| f_name := f_name f; f_cancelled := f_cancelled f; f_restkilled := false; f_exit := f_exit f |}.
-Definition frame_live (f : frame) : bool := negb (f_cancelled f) && negb (f_restkilled f).
+(* live: not cancelled, its block not killed (and so no break / return has written an exit number) *)
+Definition frame_live (f : frame) : bool := negb (f_cancelled f) && negb (f_restkilled f) && Z.eqb (f_exit f) 0.
 
 (* breakUpwards: proc.KillForks; proc.Done(); stop at the block called nm; else its parent.
    A name that no block of the current function has: every frame up to and including the function
@@ -264,8 +268,7 @@ Fixpoint exec_stmt (tm : bool) (e : env) (s : stmt) (c : cstate) : cstate * Z :=
       let '(r, x) := exec_block true e b (push (new_frame (try_name pipe)) c) 0%Z in (pop r, x)
   | Call f b =>
       (* a function fork has its own context, scope, variables and the normal run mode *)
-      let r := fst (exec_block false [] b {| c_stack := [new_frame (NFunc f)]; c_out := []; c_exit := 0%Z |} 0%Z) in
-      let k := c_exit r in
+      let '(r, k) := exec_block false [] b {| c_stack := [new_frame (NFunc f)]; c_out := []; c_exit := 0%Z |} 0%Z in
       if tm && failed k
       then ({| c_stack := c_stack c; c_out := c_out c ++ c_out r; c_exit := c_exit c |}, k)
       else ({| c_stack := c_stack c; c_out := c_out c ++ c_out r ++ [TExit k]; c_exit := c_exit c |}, 0%Z)
@@ -283,12 +286,12 @@ with exec_block (tm : bool) (e : env) (b : block) (c : cstate) (xprev : Z) : cst
         let '(c1, x) := exec_stmt tm e s c in
         if tm && failed x && nonnil b' then (c1, x)      (* runModeTry: leave the block *)
         else exec_block tm e b' c1 x
-      else (c, xprev)
+      else (c, top_exit (c_stack c))       (* a cancelled process keeps the ExitNum KillForks gave it *)
   end.
 
 Definition run_cancel (main : block) : list tok * Z :=
-  let r := fst (exec_block false [] main {| c_stack := [new_frame (NFunc 0)]; c_out := []; c_exit := 0%Z |} 0%Z) in
-  (c_out r, c_exit r).
+  let '(r, x) := exec_block false [] main {| c_stack := [new_frame (NFunc 0)]; c_out := []; c_exit := 0%Z |} 0%Z in
+  (c_out r, x).
 
 (* ------------------------------------------------------------------ *)
 (* well-named programs.  encl: the enclosing blocks of the current function, innermost first,
@@ -297,9 +300,23 @@ Definition run_cancel (main : block) : list tok * Z :=
      the function body;
    - a `continue` does not target a one-block while (known finding 2: the condition of that loop
      is the output and exit number of its block, which the continue cuts short).
-   Nothing is asked of `break`, `return`, or of the NAME of a continue: a name that no enclosing
+   Nothing is asked of `return`, or of the NAME of a break / continue: a name that no enclosing
    block of the current function has is the error case of the real code (the function is
-   abandoned, its caller carries on). *)
+   abandoned, its caller carries on) - except that the exit number 1 of that error is not
+   modelled, so such a break / continue must not sit directly in a try block nor be the last
+   statement of a function body, the two places where its own exit number is looked at. *)
+Fixpoint in_names (nm : name) (l : list (name * bool)) : bool :=
+  match l with [] => false | (x, _) :: l' => name_eqb x nm || in_names nm l' end.
+
+Definition in_try (l : list (name * bool)) : bool :=
+  match l with (NTry, _) :: _ | (NTrypipe, _) :: _ => true | _ => false end.
+
+Fixpoint last_resolved (encl : list (name * bool)) (b : block) : bool :=
+  match b with
+  | BNil => true
+  | BCons (Break nm) BNil => in_names nm encl
+  | BCons _ b' => last_resolved encl b'
+  end.
 Fixpoint target_is_while1 (nm : name) (l : list (name * bool)) : bool :=
   match l with
   | [] => false
@@ -308,18 +325,20 @@ Fixpoint target_is_while1 (nm : name) (l : list (name * bool)) : bool :=
 
 Fixpoint wn_stmt (encl : list (name * bool)) (s : stmt) : bool :=
   match s with
-  | Out _ | Return _ | Break _ | BreakAny => true
+  | Out _ | Return _ | BreakAny => true
+  | Break nm => in_names nm encl || negb (in_try encl)
   | Branch k _ b d => wn_block ((branch_name k, false) :: encl) b && wn_block ((branch_name k, false) :: encl) d
   | Loop k _ _ b => wn_block ((loop_name k, match k with LWhile1 => true | _ => false end) :: encl) b
   | Try pipe b => wn_block ((try_name pipe, false) :: encl) b
-  | Call f b => wn_block [(NFunc f, false)] b
+  | Call f b => wn_block [(NFunc f, false)] b && last_resolved [(NFunc f, false)] b
   | Continue nm =>
       match encl with
-      | (x, _) :: _ :: _ => negb (name_eqb x nm) && negb (target_is_while1 nm encl)
+      | (x, _) :: _ :: _ => negb (name_eqb x nm) && negb (target_is_while1 nm encl) && (in_names nm encl || negb (in_try encl))
       | _ => false
       end
   end
 with wn_block (encl : list (name * bool)) (b : block) : bool :=
   match b with BNil => true | BCons s b' => wn_stmt encl s && wn_block encl b' end.
 
-Definition well_named (main : block) : bool := wn_block [(NFunc 0, false)] main.
+Definition well_named (main : block) : bool :=
+  wn_block [(NFunc 0, false)] main && last_resolved [(NFunc 0, false)] main.
